@@ -21,7 +21,7 @@ def _ret(line):
 def oracle_bs(cap, lines):
     """the stream as a sequence of bits: writes append LSB first, reads consume in order"""
     nbytes = (cap + 7) // 8
-    bits = []; wc = 0; rc = 0
+    bits = []; wc = 0; rc = 0; snap = None
     def packed():
         by = [0] * nbytes
         for i, b in enumerate(bits):
@@ -36,6 +36,12 @@ def oracle_bs(cap, lines):
             w = int(t[1]); v = int(t[2])
             bits += [(v >> j) & 1 for j in range(w)]; wc += w
             if d.get("cursor") != str(wc): return "after writing %d bits the cursor is %s, expected %d" % (w, d.get("cursor"), wc)
+        elif t[0] == "snap":
+            snap = packed(); continue
+        elif t[0] == "eq":
+            e = packed() == snap
+            if _ret(l) != ("10" if e else "01"): return "operator== / operator!= answer %s for buffers %s and %s" % (_ret(l), packed(), snap)
+            continue
         elif t[0] == "rs":
             rc = 0
         elif t[0] == "r":
